@@ -159,8 +159,8 @@ IsEmptyImpl == CASE mode = LIST -> list = <<>> [] mode = SET -> set = {}
 Coupons == IF mode = LIST THEN {list[n] : n \in DOMAIN list} ELSE set
 
 \* ---- refinement mapping and the properties checked ----
-CObj == [lgK |-> LgK, type |-> type, full |-> Full, mode |-> mode, fed |-> fed, top |-> gtop, empty |-> fed = {}]
-C == INSTANCE Hll WITH obj <- (1 :> CObj), Ids <- {1}, LgKs <- {LgK}, Coupons <- Alphabet, TrackFed <- TRUE
+CObj == [lgK |-> LgK, type |-> type, full |-> Full, mode |-> mode, fed |-> fed, top |-> gtop, empty |-> fed = {}, big |-> FALSE]
+C == INSTANCE Hll WITH obj <- (1 :> CObj), Ids <- {1}, LgKs <- {LgK}, Coupons <- Alphabet, Bigs <- {FALSE}, TrackFed <- TRUE
 ContentOK == IF mode = HLL THEN Regs = C!Content(CObj) ELSE Coupons = C!Content(CObj) /\ (mode = LIST => Len(list) = Cardinality(Coupons))
 EmptyOK == IsEmptyImpl = CObj.empty
 CInv == C!Inv
